@@ -77,3 +77,13 @@ func VerifDurSetBit(h *Holder, index, field, view string, shard, rowID, columnID
 	}
 	return frag.setBit(rowID, columnID)
 }
+
+// VerifDurClearRow clears one row of the open fragment "index/field/view/shard"
+// (fragment.clearRow: in-memory change, then the snapshot that makes it durable).
+func VerifDurClearRow(h *Holder, index, field, view string, shard, rowID uint64) (bool, error) {
+	frag := h.fragment(index, field, view, shard)
+	if frag == nil {
+		return false, fmt.Errorf("no fragment %s/%s/%s/%d", index, field, view, shard)
+	}
+	return frag.clearRow(rowID)
+}
